@@ -89,7 +89,7 @@ func c05StoreBFS(driver string, ids []string, depth, shard, nshards int) vh.Unit
 						evs = append(evs, "nonce "+id+" "+k)
 					}
 				}
-				return append(evs, "tick 1s", "tick 16m")
+				return append(evs, "tick 1s", "tick 15m", "tick 16m")
 			},
 			Apply: func(wi interface{}, ev string, judge bool, hist []string) {
 				w := wi.(*c05World)
@@ -293,7 +293,7 @@ func c05PoolBFS(driver string, depth int) vh.Unit {
 				for _, k := range c05Kinds {
 					evs = append(evs, "update A "+k, "update B "+k, "addnode W "+k, "withdraw W "+k, "updold A "+k)
 				}
-				return append(evs, "tick 16m")
+				return append(evs, "tick 15m", "tick 16m")
 			},
 			Apply: func(wi interface{}, ev string, judge bool, hist []string) {
 				w := wi.(*world)
@@ -398,8 +398,7 @@ func init() {
 		Rule:      "BFS: every sequence of (identity, nonce kind) submissions and clock ticks up to the depth bound, states de-duplicated on (clock, model high-water marks); DFS: every interleaving of 2-3 concurrent submissions within the preemption bound; a case is distinct by (nonce kind, accepted?) resp. by per-thread outcome vector",
 		Assumptions: []string{
 			"equality exactly at the 15-minute boundary is not judged (alphabet uses boundary±1ns)",
-			"badger nonce records carry a 15-minute TTL in real time; runs are shorter than that, the expiry event is not explored",
-			"virtual clock: time.Now in vipnode packages is redirected by build overlay",
+			"virtual clock: time.Now in vipnode packages is redirected by build overlay; the two places where the badger library reads the wall clock for record expiry (Entry.WithTTL, isDeletedOrExpired) follow the same virtual clock, so the expiry of nonce records is part of the explored histories",
 		},
 		Units: func(tier string) []vh.Unit {
 			var us []vh.Unit
